@@ -1,12 +1,12 @@
 """C03 Valid Python in, valid Python out; never write a broken file."""
 from pyvc.tables import run_gen
-from contracts import c_validity, c_processing_scheduler
+from contracts import c_validity, c_processing_scheduler, c_layout
 from standins import c03_valid
 
 
 def units():
     sched = [u for u in c_processing_scheduler.UNITS if "C03" in u.props]
-    return c_validity.UNITS + sched
+    return c_validity.UNITS + sched + c_layout.UNITS
 
 
 def extra(tier, seed):
